@@ -93,6 +93,10 @@ pub struct ParCfg {
     pub all_on_one: bool,
     /// buggify: order of insertion when collecting into an unordered container
     pub permute_unordered_collect: bool,
+    /// a worker that waits for its own nested parallel call and finds nothing of that call left to
+    /// run executes pending items of OTHER calls meanwhile (rayon's work stealing while waiting:
+    /// the stolen item runs on top of the waiting frame, on the same thread and thread-locals)
+    pub steal_while_waiting: bool,
 }
 
 impl Default for ParCfg {
@@ -104,6 +108,7 @@ impl Default for ParCfg {
             one_item_per_worker: false,
             all_on_one: false,
             permute_unordered_collect: false,
+            steal_while_waiting: false,
         }
     }
 }
